@@ -18,6 +18,7 @@ import Saltpack.Proofs.Basic
 import Saltpack.Proofs.RingRT
 import Saltpack.Proofs.RoundTripSig
 import Saltpack.Proofs.Calls
+import Saltpack.Proofs.WireRT
 
 namespace Saltpack.Proofs.BasicRing
 open Saltpack Saltpack.Basic Saltpack.Proofs.RTSig Saltpack.Encrypt
@@ -407,5 +408,117 @@ theorem fromRand_is_basic_creator (P : Prims) (src : Rand.Source) :
   cases Rand.readFull 32 src with
   | none => rfl
   | some p => rfl
+
+/-! ## on the emitted BYTES -/
+
+/-- **C01 at byte level with a basic keyring**: what `Seal` emits, split the way
+    a receiver's MessagePack stream splits it, opens (cf. `enc_roundtrip_bytes_ring`) -/
+theorem enc_roundtrip_bytes_basic_ring (P : Prims) (hP : P.Lawful) (bs : Nat) (hbs : 0 < bs) (hbs32 : bs + 16 < 2 ^ 32)
+    (v : Version) (hv : v = v1 ∨ v = v2)
+    (sender : Option Bytes) (rs : List Recipient) (eph payloadKey pt : Bytes)
+    (hpk : payloadKey.length = 32)
+    (hnamed : ∀ s, sender = some s → P.boxPub s ≠ P.boxPub eph)
+    (hpub : ∀ r ∈ rs, r.hidden = false → r.pub ≠ [])
+    (hlen : ∀ r ∈ rs, r.hidden = false → r.pub.length = 32)
+    (k : Basic.Keyring) (hwf : WF k) (hh : Honest P k) (order : List SecretKey) (hperm : order.Perm k.encKeys)
+    (i : Nat) (hi : i < rs.length) (sk : Bytes) (hmem : (⟨P.boxPub sk, sk⟩ : SecretKey) ∈ k.encKeys)
+    (hsk : (rs.getD i default).pub = P.boxPub sk)
+    (hns : RingNoSpuriousOpen P v eph payloadKey rs (k.encKeys.map (·.sec)))
+    (L : Nat) (hL : ∀ r ∈ rs, r.pub.length ≤ L) (hsmall : 145 + rs.length * (L + 63) < 2 ^ 32)
+    (msg : Bytes) (hmsg : sealWith P bs v sender rs eph payloadKey pt = .ok msg) :
+    ∃ hr ps, Wire.splitEnc msg = .ok (hr, ps) ∧
+      ∃ i' sk', i' < rs.length ∧ (⟨P.boxPub sk', sk'⟩ : SecretKey) ∈ k.encKeys ∧
+        (rs.getD i' default).pub = P.boxPub sk' ∧
+        Decrypt.openAll P knownMajor (k.toRing order) hr ps = .ok (mkiOf P sender rs eph i' sk', pt) := by
+  obtain ⟨h, hb, blks, body, hs, he, rfl⟩ := seal_bytes_are_packets_enc P bs v sender rs eph payloadKey pt msg hmsg
+  have hS := WireSizes.of_lawful hP
+  obtain ⟨_, hhdr, _, _, _⟩ := sealPackets_inv P bs v sender rs eph payloadKey pt h hb blks hs
+  have hhbe := WireRT.sealPackets_hb P bs v sender rs eph payloadKey pt h hb blks hs
+  have hhb : hb.length < 2 ^ 32 := by
+    rw [hhbe]
+    exact WireRT.enc_header_small P hS hv sender eph payloadKey hpk rs h hhdr L hL hsmall
+  have hver : h.version = v := (header_spec P hv sender eph payloadKey rs h hhdr).2.1
+  have hL' : ∀ r ∈ rs, r.pub.length < 2 ^ 32 := by
+    intro r hr
+    have := hL r hr
+    have : 0 < rs.length := List.length_pos_iff.mpr (List.ne_nil_of_mem hr)
+    have : 1 * (L + 63) ≤ rs.length * (L + 63) := Nat.mul_le_mul_right _ this
+    omega
+  refine ⟨_, _, wire_enc P hS bs hbs hbs32 v sender rs eph payloadKey pt (by omega) hL' h hb blks body hs he hhb, ?_⟩
+  rw [← hver, WireRT.openAll_asRead]
+  exact enc_roundtrip_basic_ring P hP bs hbs v hv sender rs eph payloadKey pt hpk hnamed hpub hlen k hwf hh order hperm
+    i hi sk hmem hsk hns h hb blks hs
+
+/-- **C03 at byte level with a basic keyring**, box-key recipient -/
+theorem sc_roundtrip_box_bytes_basic (P : Prims) (hP : P.Lawful) (bs : Nat) (hbs : 0 < bs) (hbs32 : bs + 80 < 2 ^ 32)
+    (sender : Option Bytes) (rs : List Signcrypt.Recipient) (eph payloadKey pt : Bytes)
+    (hpk : payloadKey.length = 32)
+    (hsender : ∀ s, sender = some s → ¬ ((P.sigPub s).all (· == 0)))
+    (hblocks : (chunkPlan v2 bs pt).length < 2 ^ 64 - 1)
+    (k : Basic.Keyring) (hh : Honest P k) (order : List SecretKey) (hperm : order.Perm k.encKeys)
+    (res : Signcrypt.Resolver)
+    (i : Nat) (hi : i < rs.length) (sk : Bytes) (hmem : (⟨P.boxPub sk, sk⟩ : SecretKey) ∈ k.encKeys)
+    (hsk : rs.getD i default = .box (P.boxPub sk))
+    (hnc : ∀ e ∈ k.encKeys, ∀ j, j ≤ i → j < rs.length →
+      Signcrypt.keyIdentifier P (Signcrypt.derivedKeyFromBoxKeys P (P.boxPub eph) e.sec) j =
+        Decrypt.kidOf ((Signcrypt.header P sender eph payloadKey rs).receivers.getD j default) →
+      rs.getD j default = .box e.pub)
+    (L : Nat) (hL32 : 32 ≤ L)
+    (hid : ∀ key ident, Signcrypt.Recipient.sym key ident ∈ rs → ident.length ≤ L)
+    (hsmall : 145 + rs.length * (L + 63) < 2 ^ 32)
+    (msg : Bytes) (hmsg : Signcrypt.sealWith P bs sender rs eph payloadKey pt = .ok msg) :
+    ∃ hr ps, Wire.splitSigncrypt msg = .ok (hr, ps) ∧
+      Signcrypt.openAll P (k.toRing order) res hr ps = .ok (sender.map P.sigPub, pt) := by
+  obtain ⟨hb, blks, hs, hsplit⟩ := WireRT.sc_bytes_split P hP bs hbs hbs32 sender rs eph payloadKey pt hpk L hL32 hid
+    hsmall msg hmsg
+  exact ⟨_, _, hsplit, sc_roundtrip_box_basic P hP bs hbs sender rs eph payloadKey pt hpk hsender hblocks k hh order hperm
+    res i hi sk hmem hsk _ hb blks hs hnc⟩
+
+/-! ## in terms of the sequence of imports -/
+
+/-- **Encryption round trip, stated on the import history.**  Any number of
+    honest key pairs imported into an empty basic keyring in ANY order (also the
+    same public key several times), among them — at some point — a key pair with
+    recipient `i`'s public key: `Open` with that keyring returns exactly the
+    plaintext and the sender, as some recipient `i'` whose key was imported. -/
+theorem enc_roundtrip_basic_imports (P : Prims) (hP : P.Lawful) (bs : Nat) (hbs : 0 < bs)
+    (v : Version) (hv : v = v1 ∨ v = v2)
+    (sender : Option Bytes) (rs : List Recipient) (eph payloadKey pt : Bytes)
+    (hpk : payloadKey.length = 32)
+    (hnamed : ∀ s, sender = some s → P.boxPub s ≠ P.boxPub eph)
+    (hpub : ∀ r ∈ rs, r.hidden = false → r.pub ≠ [])
+    (hlen : ∀ r ∈ rs, r.hidden = false → r.pub.length = 32)
+    (es : List SecretKey) (hes : ∀ e ∈ es, e.pub = P.boxPub e.sec)
+    (i : Nat) (hi : i < rs.length) (himp : ∃ e ∈ es, e.pub = (rs.getD i default).pub)
+    (order : List SecretKey) (hperm : order.Perm (Basic.Keyring.empty.importAll es).encKeys)
+    (hns : RingNoSpuriousOpen P v eph payloadKey rs (es.map (·.sec)))
+    (h : EncHeader) (hb : Bytes) (blks : List EncBlock)
+    (hseal : sealPackets P bs v sender rs eph payloadKey pt = .ok (h, hb, blks)) :
+    ∃ i' sk', i' < rs.length ∧ sk' ∈ es.map (·.sec) ∧ (rs.getD i' default).pub = P.boxPub sk' ∧
+      Decrypt.openAll P knownMajor ((Basic.Keyring.empty.importAll es).toRing order) (.ok hb h) ⟨blks.map some, .eof⟩ =
+        .ok (mkiOf P sender rs eph i' sk', pt) := by
+  have hwf := importAll_empty_wf es
+  have hh := importAll_honest (empty_honest P) es hes
+  have hsub : ∀ e ∈ (Basic.Keyring.empty.importAll es).encKeys, e ∈ es := by
+    intro e he
+    rcases importAll_subset es he with h' | h'
+    · cases h'
+    · exact h'
+  obtain ⟨e, he, hepub⟩ := himp
+  obtain ⟨e', hget, _, he'pub⟩ := mapGet_importAll_isSome Basic.Keyring.empty es he
+  have he'k := (mapGet_mem hget).1
+  have he'h := hh e' he'k
+  have hmem : (⟨P.boxPub e'.sec, e'.sec⟩ : SecretKey) ∈ (Basic.Keyring.empty.importAll es).encKeys := by
+    obtain ⟨p, s⟩ := e'
+    simp only at he'h
+    subst he'h
+    exact he'k
+  obtain ⟨i', sk', hi', hsk', hpe, hopen⟩ := enc_roundtrip_basic_ring P hP bs hbs v hv sender rs eph payloadKey pt
+    hpk hnamed hpub hlen _ hwf hh order hperm i hi e'.sec hmem (by rw [← hepub, ← he'pub, he'h])
+    (fun s hs => by
+      obtain ⟨x, hx, rfl⟩ := List.mem_map.1 hs
+      exact hns x.sec (List.mem_map.2 ⟨x, hsub x hx, rfl⟩))
+    h hb blks hseal
+  exact ⟨i', sk', hi', List.mem_map.2 ⟨_, hsub _ hsk', rfl⟩, hpe, hopen⟩
 
 end Saltpack.Proofs.BasicRing
